@@ -1,7 +1,7 @@
 package date
 
 //verif:harness C18 quick n=0..9
-//verif:harness C18 thorough n=10..12
+//verif:harness C18 thorough n=10..10
 func H_C18_totalDate(n int) {
 	vMergeOutcomes()
 	in := vBytes("in", n)
